@@ -23,7 +23,7 @@ class Cfg:
 
     def __init__(self, fam='simple', T=2, ne=False, sym_maxdist=True, sym_init=True, sym_minprob=True,
                  width=None, noise=1.0, noise_ne=None, goingback=False, nelf=0.75, sym_nelf=False,
-                 self_listed=True, linked=None, order=None):
+                 self_listed=True, linked=None, order=None, relabel=None, scale=None):
         self.fam = fam                  # 'simple' (edges), 'simple_n' (nodes+edges), 'dist'
         self.T = T
         self.ne = ne
@@ -42,6 +42,8 @@ class Cfg:
             linked = {tuple(k): [tuple(e) for e in v] for k, v in linked}
         self.linked = linked
         self.order = order
+        self.relabel = relabel      # list of [old, new] label pairs applied to the graph (geometry symbols keep the old names)
+        self.scale = scale          # positive constant: every map distance and every distance parameter is multiplied by it
 
     @property
     def only_edges(self):
@@ -53,21 +55,25 @@ class Cfg:
                 + (f" goingback" if self.goingback else "") + (f" linked={self.linked}" if self.linked else ""))
 
 
-def sym_threshold(eng, name):
-    """A symbolic distance threshold d = sqrt(q), q >= 0, compared through its radicand."""
+def sym_threshold(eng, name, scale=None):
+    """A symbolic distance threshold d = sqrt(q), q >= 0, compared through its radicand (times scale)."""
     q = z3.Real(name + "_sq")
     eng.assume(q >= 0)
-    return eng.sqrt_of(q, name=name)
+    if scale is None:
+        return eng.sqrt_of(q, name=name)
+    c = E.rv(scale)
+    return eng.sqrt_of(c * c * q, name=f"{name}_x{scale}")
 
 
 def make_matcher(eng, mp, cfg, suffix=""):
     """A real matcher object on map `mp`, symbolic thresholds installed after construction."""
     from leuvenmapmatching.matcher.simple import SimpleMatcher
     from leuvenmapmatching.matcher.distance import DistanceMatcher
-    kw = dict(non_emitting_states=cfg.ne, obs_noise=cfg.noise, avoid_goingback=cfg.goingback,
+    sc = 1.0 if cfg.scale is None else cfg.scale
+    kw = dict(non_emitting_states=cfg.ne, obs_noise=cfg.noise * sc, avoid_goingback=cfg.goingback,
               max_lattice_width=cfg.width, non_emitting_length_factor=cfg.nelf)
     if cfg.noise_ne is not None:
-        kw['obs_noise_ne'] = cfg.noise_ne
+        kw['obs_noise_ne'] = cfg.noise_ne * sc
     if cfg.fam == 'dist':
         mt = DistanceMatcher(mp, **kw)
     else:
@@ -82,10 +88,10 @@ def install_thresholds(eng, mt, cfg):
     if eng is None:
         return
     if cfg.sym_maxdist:
-        mt.max_dist = sym_threshold(eng, "max_dist")
+        mt.max_dist = sym_threshold(eng, "max_dist", cfg.scale)
         mt.max_dist_init = mt.max_dist
     if cfg.sym_init:
-        mt.max_dist_init = sym_threshold(eng, "max_dist_init")
+        mt.max_dist_init = sym_threshold(eng, "max_dist_init", cfg.scale)
     if cfg.sym_minprob:
         ml = z3.Real("min_logprob_norm")
         eng.assume(ml <= 0)
@@ -99,11 +105,12 @@ def install_thresholds(eng, mt, cfg):
 def concrete_thresholds(mt, cfg, vals):
     """Install concrete threshold values (from a model) on a matcher for replay."""
     inf = float('inf')
+    sc = 1.0 if cfg.scale is None else cfg.scale
     if cfg.sym_maxdist:
-        mt.max_dist = vals.get('max_dist', inf)
+        mt.max_dist = vals.get('max_dist', inf) * sc
         mt.max_dist_init = mt.max_dist
     if cfg.sym_init:
-        mt.max_dist_init = vals.get('max_dist_init', inf)
+        mt.max_dist_init = vals.get('max_dist_init', inf) * sc
     if cfg.sym_minprob:
         mt.min_logprob_norm = vals.get('min_logprob_norm', -inf)
     if cfg.sym_nelf:
